@@ -7,6 +7,7 @@ import VaxisModel.Lemmas.SimpleList
 import VaxisModel.Lemmas.Pager
 import VaxisModel.Lemmas.Scrollbar
 import VaxisModel.Lemmas.DynList
+import VaxisModel.Lemmas.DynListInv
 
 namespace VaxisModel.Props.C19
 open VaxisModel VaxisModel.Model
@@ -146,6 +147,9 @@ regenerated facts that the cursor-gutter block checks `d.cursor >= d.scroll.top`
 section Dyn
 open VaxisModel.Model.DynList VaxisModel.Lemmas.DynList
 
+/-- The source carries the F119 guard and the F119f stop condition. -/
+theorem dyn_repairs_present : genFacts = ⟨true, true⟩ := by decide
+
 /-- The full layout statement: every `Draw`, from any state, for any gap, returns its children in
     index order, contiguous (each directly below the previous one plus the gap — hence without
     overlap for gap ≥ 0) and with the builder's heights.  It is FALSE of the code for gap > 0 after an
@@ -184,8 +188,17 @@ theorem dyn_no_panic_empty (cfg : Cfg) (ops : List Op) (ho : ∀ op ∈ ops, OpO
   let ⟨s, he, _⟩ := run_empty _ cfg ops init ⟨rfl, by decide⟩ ho
   ⟨s, he⟩
 
-/-- The source carries the F119 guard and the F119f stop condition. -/
-theorem dyn_repairs_present : genFacts = ⟨true, true⟩ := by decide
+
+/-- **No panic over whole histories (gap 0)** — for every fixed builder (any number of items, any
+    heights including 0), gap 0, with or without the cursor gutter: every history of
+    SetCursor/NextItem/PrevItem/wheel/SetPendingScroll/Draw (cursors below 2^63, bounded draw
+    contexts, any viewport sizes) runs without panic, the top index always refers to an existing
+    item (or is 0), and the cursor stays a sane index. -/
+theorem dyn_no_panic (cfg : Cfg) (hgap : cfg.gap = 0) (hs : List Nat) (hlen : hs.length < 2 ^ 63)
+    (ops : List Op) (ho : ∀ op ∈ ops, OpOk op) :
+    ∃ s, run genFacts cfg hs init ops = .ok s ∧ (s.top = 0 ∨ s.top < hs.length) ∧ s.cursor < 2 ^ 63 := by
+  obtain ⟨s, he, hi⟩ := run_inv3 genFacts (by rw [dyn_repairs_present]) cfg hgap hs hlen ops init (init_inv3 hs) ho
+  exact ⟨s, he, hi.top_ok, hi.cur_ok⟩
 
 /-- The full visibility statement: after ANY history (from the initial state, gap ≥ 0, a fixed
     builder) that leaves no pending scroll, a selection change to an existing item of height ≥ 1
